@@ -70,10 +70,24 @@ class Gen:
         k = self.kind()
         a = {"a": "raise", "i": self.nid(), "kind": k}
         if k == "multi":
-            a["sub"] = [{"kind": self.draw(st.sampled_from(FAILURE_KINDS + ERROR_KINDS + SKIP_KINDS)), "i": self.nid()}
-                        for _ in range(self.draw(st.sampled_from([2, 3, 2, 1, 0])))]
+            a["sub"] = self.multi_subs(1)
         self.raises += 1
         return a
+
+    def multi_subs(self, nest):
+        pool = list(FAILURE_KINDS + ERROR_KINDS + SKIP_KINDS)
+        if self.o.get("nonexc"):
+            pool += ["kbi", "sysexit"]
+        if nest:
+            pool += ["multi", "multi"]
+        subs = []
+        for _ in range(self.draw(st.sampled_from([2, 3, 2, 1, 0]))):
+            k = self.draw(st.sampled_from(pool))
+            if k == "multi":
+                subs.append({"kind": "multi", "i": self.nid(), "sub": self.multi_subs(nest - 1)})
+            else:
+                subs.append({"kind": k, "i": self.nid()})
+        return subs
 
     def actions(self, depth, where):
         o = self.o
@@ -102,10 +116,11 @@ class Gen:
                 out.append({"a": "cleanup", "i": self.nid(), "args": self.draw(st.booleans()),
                             "body": self.actions(depth + 1, "cleanup") + ([self.raise_action()] if self.draw(st.integers(0, 3)) == 0 else [])})
             elif c == "patch":
-                out.append({"a": "patch", "i": self.nid(), "obj": self.draw(st.integers(0, 1)),
-                            "attr": self.draw(st.sampled_from(["x", "nonev", "missing"])), "value": "v%d" % self.nid()})
+                obj = self.draw(st.integers(0, 2))
+                out.append({"a": "patch", "i": self.nid(), "obj": obj,
+                            "attr": self.draw(st.sampled_from(["x", "nonev", "missing"] if obj < 2 else ["x", "nonev"])), "value": "v%d" % self.nid()})
             elif c == "read":
-                out.append({"a": "read", "i": self.nid(), "obj": self.draw(st.integers(0, 1)),
+                out.append({"a": "read", "i": self.nid(), "obj": self.draw(st.integers(0, 2)),
                             "attr": self.draw(st.sampled_from(["x", "nonev", "missing"]))})
             elif c == "fixture":
                 out.append({"a": "fixture", "i": self.nid(), "spec": self.fixture(1)})
@@ -135,7 +150,8 @@ class Gen:
 
     def fixture(self, nest):
         f = {"i": self.nid(), "setup_fail": self.draw(st.integers(0, 4)) == 0, "cleanup_fail": self.draw(st.integers(0, 4)) == 0,
-             "details": {}, "nested": None, "details_fail": nest == 1 and self.draw(st.integers(0, 7)) == 0}
+             "details": {}, "nested": None, "details_fail": nest == 1 and self.draw(st.integers(0, 7)) == 0,
+             "live": self.draw(st.booleans())}
         if self.o.get("details"):
             for name in self.draw(st.lists(st.sampled_from(DETAIL_NAMES), max_size=2, unique=True)):
                 f["details"][name] = self.draw(CHUNKS)
@@ -155,7 +171,8 @@ class Gen:
 @st.composite
 def programs(draw, **opts):
     g = Gen(draw, opts)
-    decor = draw(st.sampled_from(["none"] * 8 + ["skip_method", "skip_class", "skipIf_true", "skipIf_false", "skipUnless_true", "skipUnless_false"])) \
+    decor = draw(st.sampled_from(["none"] * 8 + ["skip_method", "skip_class", "skipIf_true", "skipIf_false", "skipUnless_true", "skipUnless_false",
+                                  "expectedFailure", "expectedFailure"])) \
         if opts.get("decor") else "none"
     p = opts.get("p_raise", 3)
     prog = {"decor": decor,
@@ -164,6 +181,10 @@ def programs(draw, **opts):
             "handlers": [], "handlers_when": "init"}
     if prog["setUp_pre"] and prog["setUp_pre"][-1]["a"] == "raise":
         prog["setUp_post"] = []
+    if decor == "expectedFailure":
+        # @unittest.expectedFailure wraps the test method only: keep its body simple
+        k = draw(st.sampled_from([None, "fail", "error", "skip"] + (["kbi", "sysexit", "base"] if opts.get("nonexc") else [])))
+        prog["body"] = [{"a": "log", "i": g.nid()}] + ([{"a": "raise", "i": g.nid(), "kind": k}] if k else [])
     if opts.get("custom") and g.raises == 0:
         # a single-exception program with user-inserted handlers (precedence clause of C03)
         kind = draw(st.sampled_from(CUSTOM_KINDS + ("fail", "skip", "error")))
@@ -197,7 +218,7 @@ class Model:
         self.raised = []         # dicts: kind, i (marker), stage
         self.cleanups = []
         self.force = False
-        self.objs = [{"x": "orig-x", "nonev": None}, {"x": "orig-x", "nonev": None}]
+        self.objs = [{"x": "orig-x", "nonev": None}, {"x": "orig-x", "nonev": None}, {"x": "orig-x", "nonev": None}]
         self.details_added = []  # (order, name, source, chunks|cell)
         self.cells = {}
         self.handlers = 0
@@ -220,6 +241,16 @@ class Model:
             # the assertion behind an expected failure (expectFailure) has its own traceback
             self.gen_items.append({"type": "traceback-xfail", "marker": None, "base": "traceback", "t": len(self.log)})
 
+    def note_multi(self, a, stage):
+        """MultipleExceptions are unpacked recursively; one without constituents is an ordinary error."""
+        if not a["sub"]:
+            self.note("empty_multi", a["i"], stage)
+        for s in a["sub"]:
+            if s["kind"] == "multi":
+                self.note_multi(s, stage)
+            else:
+                self.note(s["kind"], s["i"], stage)
+
     def run_list(self, acts, stage):
         """Returns True if the list completed, False if it raised."""
         for a in acts:
@@ -234,10 +265,7 @@ class Model:
             return True
         if t == "raise":
             if a["kind"] == "multi":
-                for s in a["sub"]:
-                    self.note(s["kind"], s["i"], stage)
-                if not a["sub"]:
-                    self.note("empty_multi", a["i"], stage)      # reported as an ordinary error
+                self.note_multi(a, stage)
             else:
                 self.note(a["kind"], a["i"], stage)
             return False
@@ -368,7 +396,16 @@ class Model:
             return self
         ok = self.run_list(p["setUp_pre"], "setUp") and self.run_list(p["setUp_post"], "setUp")
         if ok:
-            self.run_list(p["body"], "body")
+            n0 = len(self.raised)
+            body_ok = self.run_list(p["body"], "body")
+            if p["decor"] == "expectedFailure":
+                new = self.raised[n0:]
+                if body_ok:
+                    self.raised.append({"kind": "ux_sub", "i": None, "stage": "body", "handlers": self.handlers})
+                elif all(klass(r["kind"]) != "nonexc" for r in new):
+                    # any Exception raised by the wrapped method becomes one expected failure
+                    del self.raised[n0:]
+                    self.raised.append({"kind": "xfail_sub", "i": None, "stage": "body", "handlers": self.handlers})
             if self.run_list(p["tearDown_pre"], "tearDown"):
                 self.run_list(p["tearDown_post"], "tearDown")
         while self.cleanups:
@@ -462,12 +499,37 @@ def marker_of(exc):
     return None
 
 
+class Slotted:
+    """A scratch object whose attributes do not live in an instance __dict__."""
+    __slots__ = ("x", "nonev")
+
+    def __init__(self):
+        self.x = "orig-x"
+        self.nonev = None
+
+
+ATTRS = ("x", "nonev", "missing")
+
+
+def snapshot_obj(o):
+    return {a: getattr(o, a, "<absent>") for a in ATTRS}
+
+
+def restore_obj(o, snap):
+    for a, v in snap.items():
+        if v == "<absent>":
+            if hasattr(o, a):
+                delattr(o, a)
+        else:
+            setattr(o, a, v)
+
+
 class Live:
     """Everything observable about one run of a built program."""
 
     def __init__(self):
         self.log = []
-        self.objs = [types.SimpleNamespace(x="orig-x", nonev=None), types.SimpleNamespace(x="orig-x", nonev=None)]
+        self.objs = [types.SimpleNamespace(x="orig-x", nonev=None), types.SimpleNamespace(x="orig-x", nonev=None), Slotted()]
         self.cells = {}
         self.raised_objs = {}       # marker -> exception instance
         self.handler_calls = []     # (handler id, marker or type name, len(result log) at call)
@@ -552,6 +614,18 @@ def build_case(prog, live, result_log=None, runner=None):
         live.raised_objs[i] = e
         raise e
 
+    def raise_multi(case, subs):
+        infos = []
+        for sub in subs:
+            try:
+                if sub["kind"] == "multi":
+                    raise_multi(case, sub["sub"])
+                else:
+                    do_raise(case, sub["kind"], sub["i"])
+            except BaseException:
+                infos.append(sys.exc_info())
+        raise MultipleExceptions(*infos)
+
     def run_actions(case, acts):
         for a in acts:
             step(case, a)
@@ -560,8 +634,14 @@ def build_case(prog, live, result_log=None, runner=None):
         class F(fixtures.Fixture):
             def _setUp(self):
                 live.log.append(("FS", f["i"]))
+                self.bufs = {}
                 for name, chunks in f["details"].items():
-                    self.addDetail(name, Content(BIN, lambda chunks=chunks, i=f["i"], name=name: [b"FX%d/" % i + name.encode("utf8") + b"/"] + list(chunks)))
+                    if f.get("live"):
+                        # like a log-capturing fixture: the content hands out its own buffer, emptied at cleanUp
+                        self.bufs[name] = [b"FX%d/" % f["i"] + name.encode("utf8") + b"/"] + list(chunks)
+                        self.addDetail(name, Content(BIN, lambda name=name: self.bufs[name]))
+                    else:
+                        self.addDetail(name, Content(BIN, lambda chunks=chunks, i=f["i"], name=name: [b"FX%d/" % i + name.encode("utf8") + b"/"] + list(chunks)))
                 self.addCleanup(self._clean)
                 if f["nested"] is not None:
                     self.useFixture(make_fixture(f["nested"]))
@@ -576,6 +656,8 @@ def build_case(prog, live, result_log=None, runner=None):
 
             def _clean(self):
                 live.log.append(("FC", f["i"]))
+                for buf in getattr(self, "bufs", {}).values():
+                    del buf[:]
                 if f["cleanup_fail"]:
                     raise RuntimeError("MARK-%d-" % -f["i"])
         return F()
@@ -587,13 +669,7 @@ def build_case(prog, live, result_log=None, runner=None):
             return
         if t == "raise":
             if a["kind"] == "multi":
-                infos = []
-                for s in a["sub"]:
-                    try:
-                        do_raise(case, s["kind"], s["i"])
-                    except BaseException:
-                        infos.append(sys.exc_info())
-                raise MultipleExceptions(*infos)
+                raise_multi(case, a["sub"])
             do_raise(case, a["kind"], a["i"])
         elif t == "cleanup":
             def fn(*args, **kw):
@@ -678,6 +754,8 @@ def build_case(prog, live, result_log=None, runner=None):
         Generated.test_program = testtools.skipUnless(True, "decorated")(Generated.test_program)
     elif decor == "skipUnless_false":
         Generated.test_program = testtools.skipUnless(False, "decorated")(Generated.test_program)
+    elif decor == "expectedFailure":
+        Generated.test_program = unittest.expectedFailure(Generated.test_program)
     elif decor == "skip_class":
         Generated = testtools.skip("decorated")(Generated)
     case = Generated("test_program")
